@@ -55,6 +55,8 @@ def discover() -> list[dict]:
         with open(ff) as f:
             kf = json.load(f)
         for e in kf.get("fixed", []):
+            if e.get("no_revert"):
+                continue
             out.append({"name": "revert-fix/" + e["commit"], "commit": e["commit"], "properties": e.get("caught_by") or [e["property"]], "reverse": True})
     return out
 
